@@ -633,7 +633,13 @@ fn main() {
     let n: u64 = args[2].parse().unwrap();
     let only = args.get(3).cloned();
     std::panic::set_hook(Box::new(|_| {}));
+    let mut hangs = 0u32;
     for i in 0..n {
+        if hangs >= 3 {
+            // every hang costs the full watchdog time: three are evidence enough, stop this shard
+            println!("{{\"type\":\"stat\",\"aborted_after_hangs\":{},\"at_run\":{}}}", hangs, i);
+            break;
+        }
         let case = gen_case(seed, i, &only);
         JSEED.store(common::mix(seed, i) | 1, O::Relaxed);
         let (tx, rx) = std::sync::mpsc::channel::<Result<String, String>>();
@@ -649,7 +655,7 @@ fn main() {
                 Err(e) => Err(common::panic_msg(&e)),
             });
         });
-        let line = match rx.recv_timeout(Duration::from_secs(20)) {
+        let line = match rx.recv_timeout(Duration::from_secs(10)) {
             Ok(Ok(s)) => s,
             Ok(Err(msg)) => {
                 let mut o = case_cfg_json(&case);
@@ -659,6 +665,7 @@ fn main() {
             Err(_) => {
                 let mut o = case_cfg_json(&case);
                 o.s("status", "HANG");
+                hangs += 1;
                 o.finish()
             }
         };
